@@ -19,6 +19,19 @@ What is proved here (about the model `Cedar/Fmt.lean`):
                              comments*; `toDoc_comments_partial`: all comments survive iff no trailing comma carries
                              one (`lost_comment_example` exhibits the loss).  `toDoc_safe`: the documents are
                              comment-safe.
+  * `policy_tokens`          POLICY LEVEL (model §4: `Annotation`, `VariableDef` with `is`/`==`/`in`, `Cond` with braces and
+                             the hoisted leading comments of the body, `Policy` with both scope layouts and the scope's
+                             trailing comma, mirror of doc.rs as it is now): for every chooser (`policy_tokens_any`), every
+                             line width and indent, the layout of `policyToDoc p` consists of exactly the source tokens
+                             and comments of `p` in source order minus the `,` tokens in trailing position
+                             (`policyAtomsW false true`); `policy_tokens_dropped`: that sequence is a subsequence of the
+                             source with the same comments.
+  * `policy_comments`        every comment attached to any token of the policy CST — including both comments of a dropped
+                             trailing comma — is in every layout, in source order.  `policy_safe`: no token of a policy
+                             layout is swallowed by a comment.
+  * `policies_tokens`        the lift to policy sets as fmt.rs builds them (`renderPolicies`: every policy laid out on its
+    `policies_comments`      own, joined by blank lines, final newline, end-of-file comments), for every chooser
+    `policies_safe`          (`policies_tokens_any`); `policiesToDoc_tokens` for the one-document variant.
   * `pipeline_correct`       abstract pipeline: atom-preserving (up to a parse-invariant, comment-preserving,
                              idempotent token normalisation) ∧ output on comment-free text a function of
                              (normalised tokens, config)  ⇒  same parse ∧ comments preserved ∧ idempotent on
@@ -28,15 +41,19 @@ What is NOT proved about the real code (hypotheses of `pipeline_correct` for the
 covered only by the differential / property run of `./check C12`, harness/src/c12.rs):
 
   (U1) the `pretty` crate's `render` is an instance of `bestWith ch` for some `ch` (it only inserts spaces and
-       newlines between `text`s, and `hardline` is a newline in every mode);
+       newlines between `text`s, and `hardline` is a newline in every mode); the model's `fits` is written after
+       `fitting` of pretty 0.12.5 (the head group flat, groups of the rest keep break mode) but WHERE lines break is
+       not diffed against the real formatter — the theorems hold for every chooser and do not depend on it;
   (U2) string level: printing the layout and re-lexing it gives back the atoms (two adjacent atoms re-lex to
        themselves, e.g. `principal` `.` `n`); evaluated by the harness on every output (`token_sequence_same`);
   (U3) the span lookups of utils.rs (`get_comment_at_start`, `get_comment_after_end`, `get_comment_at_end`,
        `get_comment_in_range`) find exactly the token the CST node stands on — the model's CST carries *resolved*
        tokens; the lexer / comment-attachment mirror itself IS checked (`fmt-tokens` op, every generated text);
-  (U4) the parts of doc.rs outside the core: `Policy` (annotations, effect, scope incl. its trailing comma,
-       conditions), `VariableDef`, `Cond`, `Annotation`; `remove_empty_lines`; joining policies; end-of-file
-       comments; `soundness_check`;
+  (U4) `remove_empty_lines` (string level: deletes blank lines outside strings and comments) and `soundness_check`;
+       the policy level of doc.rs (`Policy`, `VariableDef`, `Cond`, `Annotation`), the joining of policies and the
+       end-of-file comments ARE modelled (§4) and covered by the `policy_…`/`policies_…` theorems, with resolved
+       tokens (U3) — there is no differential op for policy-level documents: the harness would have to rebuild the
+       resolved-token CST from cedar's CST, and the layout itself also depends on (U1);
   (U5) the parser depends on the token sequence only, and re-rendering of literals (`007` ↦ `7`) and dropping
        trailing commas do not change the parse.
 -/
@@ -238,6 +255,153 @@ example : FullStatement toyPipeline := pipeline_correct _ toyPipeline_hyps
 example :
     let x : List Item := [.atom (.tok "a".toList), .sp, .sp, .nl 3, .atom (.tok "b".toList)]
     itemsToString (toyPipeline.fmt 80 x) = "a b " ∧ toyPipeline.fmt 80 (toyPipeline.fmt 80 x) = toyPipeline.fmt 80 x := by
+  decide +kernel
+
+/-! ### the policy level: annotations, scope, conditions (doc.rs `Annotation`, `VariableDef`, `Cond`, `Policy`) -/
+
+/-- `policy_tokens`, general form: for EVERY flat/break decision procedure and every start column, the layout of
+    the document doc.rs builds for a policy consists of exactly the source tokens and comments of the policy, in
+    source order, except that the `,` TOKENS in trailing position (the scope's `Comma<VariableDef>` and every
+    `Comma<E>` inside the expressions) are not printed (`policyAtomsW false true`: their comments are printed). -/
+theorem policy_tokens_any (ch : Nat → List Cmd → Bool) (col iw : Nat) (p : PolicyCst) :
+    itemsAtoms (bestWith ch col [(0, false, policyToDoc iw p)]) = policyAtomsW false true p := by
+  rw [bestWith_tokens]; simp [cmdsAtoms, policyToDoc_atoms]
+
+/-- … in particular for Wadler's `fits w`, at every line width `w` and indent width `iw` -/
+theorem policy_tokens (w iw : Nat) (p : PolicyCst) :
+    itemsAtoms (render w (policyToDoc iw p)) = policyAtomsW false true p :=
+  policy_tokens_any (fits w) 0 iw p
+
+/-- "modulo the dropped trailing commas", precisely: what is printed is a subsequence of the source in which no
+    comment is missing — so the only atoms that can be missing are tokens, and by definition of
+    `policyAtomsW false true` they are the trailing `,`s -/
+theorem policy_tokens_dropped (w iw : Nat) (p : PolicyCst) :
+    (itemsAtoms (render w (policyToDoc iw p))).Sublist (policyAtoms p)
+    ∧ commentsOf (itemsAtoms (render w (policyToDoc iw p))) = commentsOf (policyAtoms p) := by
+  rw [policy_tokens]; exact ⟨policy_sublist p, policy_comments_kept p⟩
+
+/-- `policy_comments`: every comment attached to any token of the policy CST (annotations, effect, scope
+    punctuation including the dropped trailing comma, `is`/`==`/`in`, `when`/`unless`, braces, the body, `;`)
+    appears in the layout, in source order, and nothing else does — for every width and indent -/
+theorem policy_comments (w iw : Nat) (p : PolicyCst) :
+    commentsOf (itemsAtoms (render w (policyToDoc iw p))) = commentsOf (policyAtoms p) :=
+  (policy_tokens_dropped w iw p).2
+
+/-- every layout of a policy is read back by a lexer as exactly the kept atoms: no token is swallowed by a `//`
+    comment (every comment is followed by a hardline in the document) -/
+theorem policy_safe (w iw : Nat) (p : PolicyCst) :
+    itemsVisible false (render w (policyToDoc iw p)) = some (policyAtomsW false true p) := by
+  rw [render_comment_safe w _ false (policyToDoc_safe iw p), policyToDoc_atoms]
+
+/-! ### policy sets: `policies_str_to_pretty` at the layout level -/
+
+/-- the lift to policy sets, for every chooser: the layouts of the policies joined by blank lines, followed by
+    the end-of-file comments, carry the atoms of all policies in order, then the end-of-file comments -/
+theorem policies_tokens_any (ch : Nat → List Cmd → Bool) (iw : Nat) (ps : List PolicyCst) (eof : List (List Char)) :
+    itemsAtoms (renderPoliciesWith ch iw ps eof) = policySetAtomsW false true ps eof := by
+  simp only [renderPoliciesWith, policySetAtomsW, itemsAtoms_append, itemsAtoms, itemsAtoms_eofItems,
+    itemsAtoms_joinPolicies, policiesAtomsW_flatten, List.map_map]
+  congr 2
+  apply List.map_congr_left
+  intro p _
+  exact policy_tokens_any ch 0 iw p
+
+theorem policies_tokens (w iw : Nat) (ps : List PolicyCst) (eof : List (List Char)) :
+    itemsAtoms (renderPolicies w iw ps eof) = policySetAtomsW false true ps eof :=
+  policies_tokens_any (fits w) iw ps eof
+
+/-- all comments of a policy set — those of every policy and the end-of-file comments — survive, in order -/
+theorem policies_comments (w iw : Nat) (ps : List PolicyCst) (eof : List (List Char)) :
+    commentsOf (itemsAtoms (renderPolicies w iw ps eof)) = commentsOf (policySetAtomsW true true ps eof) := by
+  rw [policies_tokens]
+  simp [policySetAtomsW, commentsOf_append, policies_comments_kept]
+
+/-- the layout of a policy set is comment-safe -/
+theorem policies_safe (w iw : Nat) (ps : List PolicyCst) (eof : List (List Char)) :
+    itemsVisible false (renderPolicies w iw ps eof) = some (policySetAtomsW false true ps eof) := by
+  have h1 := itemsVisible_joinPolicies (fun p => bestWith (fits w) 0 [(0, false, policyToDoc iw p)])
+    (policyAtomsW false true) (fun p => policy_safe w iw p) ps
+  have := itemsVisible_append_nl _ _ 0 _ _ false h1 (itemsVisible_eofItems eof)
+  simpa [renderPolicies, renderPoliciesWith, policySetAtomsW, policiesAtomsW_flatten] using this
+
+/-- the single-document variant of a policy set carries the same atoms -/
+theorem policiesToDoc_tokens (w iw : Nat) (ps : List PolicyCst) :
+    itemsAtoms (render w (policiesToDoc iw ps)) = policiesAtomsW false true ps := by
+  rw [render_tokens, docAtoms_policiesToDoc]
+
+/-! non-vacuity at the policy level -/
+
+def entRef (ty id : String) : Cst :=
+  .chain .path (.leaf (wt "Identifier" ty)) (.cons (wt "DoubleColon" "::") (.leaf (wt "Str" id)) .nil)
+
+/-- ```
+    // about
+    @id("p1") // anno
+    // effect
+    permit ( // open
+      principal == User::"alice", action in [Action::"view", // inner
+      ], // c2
+      resource is Photo in Album::"a"
+      // before the dropped comma
+      , // after the dropped comma
+    ) when // why
+    { // body⏎ resource.owner == principal }; // end
+    ``` -/
+def policyExample : PolicyCst where
+  annots := [⟨wt "At" "@" ["// about"], wt "Identifier" "id",
+    some (wt "LParen" "(", wt "Str" "\"p1\"", wt "RParen" ")" [] "// anno")⟩]
+  effect := wt "Permit" "permit" ["// effect"]
+  lp := wt "LParen" "(" [] "// open"
+  principal := ⟨wt "Principal" "principal", none, some (wt "Equal" "==", entRef "User" "\"alice\"")⟩
+  comma1 := wt "Comma" ","
+  action := ⟨wt "Action" "action", none, some (wt "In" "in",
+    .brack (wt "LBracket" "[") (.last (entRef "Action" "\"view\"") (some (wt "Comma" "," [] "// inner"))) (wt "RBracket" "]"))⟩
+  comma2 := wt "Comma" "," [] "// c2"
+  resource := ⟨wt "Resource" "resource", some (wt "Is" "is", .leaf (wt "Identifier" "Photo")),
+    some (wt "In" "in", entRef "Album" "\"a\"")⟩
+  trailingComma := some (wt "Comma" "," ["// before the dropped comma"] "// after the dropped comma")
+  rp := wt "RParen" ")"
+  conds := [⟨wt "When" "when" [] "// why", wt "LBrace" "{",
+    some (.rel (.member (.leaf (wt "Resource" "resource" ["// body"])) (.field (wt "Dot" ".") (wt "Identifier" "owner") .nil))
+      (wt "Equal" "==") (.leaf (wt "Principal" "principal"))),
+    wt "RBrace" "}"⟩]
+  semi := wt "SemiColon" ";" [] "// end"
+
+/-- `permit(principal, action, resource, // tc⏎ );` — the bare scope with a commented trailing comma -/
+def bareExample : PolicyCst where
+  annots := []
+  effect := wt "Permit" "permit"
+  lp := wt "LParen" "("
+  principal := ⟨wt "Principal" "principal", none, none⟩
+  comma1 := wt "Comma" ","
+  action := ⟨wt "Action" "action", none, none⟩
+  comma2 := wt "Comma" ","
+  resource := ⟨wt "Resource" "resource", none, none⟩
+  trailingComma := some (wt "Comma" "," [] "// tc")
+  rp := wt "RParen" ")"
+  conds := []
+  semi := wt "SemiColon" ";"
+
+/-- a policy with an annotation, all three scope constraints, a `when` clause, and comments on both sides of the
+    dropped trailing comma of the scope (and on a dropped trailing comma inside `[ … ]`): 11 comments, all in
+    the layout at widths 80 and 20, two `,` tokens (and nothing else) missing; the layout is comment-safe -/
+example :
+    (commentsOf (policyAtoms policyExample)).length = 11
+    ∧ commentsOf (policyAtoms policyExample) =
+        ["// about", "// anno", "// effect", "// open", "// inner", "// c2", "// before the dropped comma",
+          "// after the dropped comma", "// why", "// body", "// end"].map (fun s => Atom.com s.toList)
+    ∧ commentsOf (itemsAtoms (render 80 (policyToDoc 2 policyExample))) = commentsOf (policyAtoms policyExample)
+    ∧ commentsOf (itemsAtoms (render 20 (policyToDoc 4 policyExample))) = commentsOf (policyAtoms policyExample)
+    ∧ (tokensOf (policyAtoms policyExample)).length = (tokensOf (itemsAtoms (render 20 (policyToDoc 4 policyExample)))).length + 2
+    ∧ itemsVisible false (render 20 (policyToDoc 4 policyExample)) = some (policyAtomsW false true policyExample) := by
+  decide +kernel
+
+/-- the layouts themselves (before `remove_empty_lines`, which deletes the blank lines) -/
+example :
+    itemsToString (render 80 (policyToDoc 2 policyExample)) =
+      "\n// about\n@id(\"p1\") // anno\n\n// effect\npermit\n( // open\n\n  principal == User::\"alice\",\n  action in\n    [Action::\"view\" // inner\n      ], // c2\n  resource is Photo in Album::\"a\"\n  // before the dropped comma\n   // after the dropped comma\n  \n)\nwhen // why\n{\n  \n  // body\n  resource.owner == principal\n}; // end\n"
+    ∧ itemsToString (renderPolicies 80 2 [bareExample, bareExample] ["// eof".toList]) =
+      "permit (principal, action, resource // tc\n  );\n\npermit (principal, action, resource // tc\n  );\n// eof\n" := by
   decide +kernel
 
 end Cedar.C12
